@@ -21,6 +21,7 @@ func runC07(c *Ctx) {
 	L := c.L
 	c.checkNaNClamp()
 	c.checkMutationClasses("mutation-classes")
+	c.checkResidueIndexTables("residue-index-tables")
 	if c.Thorough() {
 		c.checkIntQuotientShares("truncated-share")
 	} else {
